@@ -543,6 +543,72 @@ func onceGet(key interface{}) *onceState {
 //go:norace
 func onceSet(st *onceState, running, done bool) { st.running, st.done = running, done }
 
+// WaitGroup shadow counters: wg.Add / wg.Done / wg.Wait in instrumented code go
+// through these so that Wait can yield instead of blocking the turn holder.
+type wgSlot struct {
+	key interface{}
+	n   int
+}
+
+var wgs [256]wgSlot
+var nWgs int
+
+//go:norace
+func wgGet(key interface{}) *wgSlot {
+	for i := 0; i < nWgs; i++ {
+		if wgs[i].key == key {
+			return &wgs[i]
+		}
+	}
+	if nWgs < len(wgs) {
+		wgs[nWgs].key = key
+		nWgs++
+		return &wgs[nWgs-1]
+	}
+	// table full: recycle slots whose counter is back to zero
+	for i := range wgs {
+		if wgs[i].n == 0 {
+			wgs[i].key = key
+			return &wgs[i]
+		}
+	}
+	return &wgs[len(wgs)-1]
+}
+
+//go:norace
+func wgDelta(key interface{}, d int) { wgGet(key).n += d }
+
+//go:norace
+func wgZero(key interface{}) bool { return wgGet(key).n <= 0 }
+
+// WGAdd replaces wg.Add(n); key is the *sync.WaitGroup.
+func WGAdd(key interface{}, add func(int), n int) {
+	if multi() {
+		wgDelta(key, n)
+	}
+	add(n)
+}
+
+// WGDone replaces wg.Done().
+func WGDone(key interface{}, done func()) {
+	if multi() {
+		wgDelta(key, -1)
+	}
+	done()
+}
+
+// WGWait replaces wg.Wait(): yields while the shadow counter is positive, then
+// performs the real Wait (returns at once, keeps the happens-before edge).
+func WGWait(key interface{}, wait func()) {
+	if multi() {
+		for !wgZero(key) {
+			s.yieldBlocked()
+		}
+		progress()
+	}
+	wait()
+}
+
 // ---------------------------------------------------------------------------
 // clock seam
 
